@@ -12,15 +12,16 @@ import (
 // C03 — conditional chains render exactly the first truthy branch; truthiness is uniform.
 
 type c03Case struct {
-	Part      string `json:"part"` // chain | uniform
-	Placement string `json:"placement,omitempty"`
-	K         int    `json:"k,omitempty"`    // number of v-else-if members
-	Else      bool   `json:"else,omitempty"` // chain ends in v-else
-	Form      string `json:"form,omitempty"` // bare | not
-	Vals      []TV   `json:"vals,omitempty"` // condition values c0..cK (first chain / first item)
-	Vals2     []TV   `json:"vals2,omitempty"`
-	Val       *TV    `json:"val,omitempty"`  // uniform part
-	Path      string `json:"path,omitempty"` // uniform part: "v" or "o.v"
+	Part      string   `json:"part"` // chain | uniform
+	Placement string   `json:"placement,omitempty"`
+	K         int      `json:"k,omitempty"`    // number of v-else-if members
+	Else      bool     `json:"else,omitempty"` // chain ends in v-else
+	Form      string   `json:"form,omitempty"` // bare | not
+	Vals      []TV     `json:"vals,omitempty"` // condition values c0..cK (first chain / first item)
+	Vals2     []TV     `json:"vals2,omitempty"`
+	Val       *TV      `json:"val,omitempty"`  // uniform part
+	Path      string   `json:"path,omitempty"` // uniform part: "v" or "o.v"
+	Lazy      *c03Lazy `json:"lazy,omitempty"` // lazy part (c03_lazy.go)
 }
 
 var c03Falsy = []TV{
@@ -70,7 +71,7 @@ func init() {
 
 func (p *c03) ID() string { return "C03" }
 func (p *c03) Rule() string {
-	return "chain part: every shape v-if + k x v-else-if (k<=2 quick, k<=3 thorough) with/without v-else x every truth assignment x 12 placements (top, nested, inside v-for with per-item conditions, on <template>, whitespace/comment between members, two adjacent chains, chain directly before a v-for sibling, inside table rows, inside an included component, inside slot content, inside a layout) x condition form (bare, negated) x a rotation through all Go value kinds realising each truth value; uniform part: every value of the truthy/falsy/undecided catalogue (all numeric widths, strings incl. \"0\" and \"false\", nil, missing, pointers, slices, maps, structs) x {v, o.v} read in v-if, v-else-if, v-show, :attr, :class object and their negations in v-if/v-else-if/v-show; non-trivial = every generated case (each has a condition decided by data); distinct by (shape, placement, form, values)"
+	return "chain part: every shape v-if + k x v-else-if (k<=2 quick, k<=3 thorough) with/without v-else x every truth assignment x 12 placements (top, nested, inside v-for with per-item conditions, on <template>, whitespace/comment between members, two adjacent chains, chain directly before a v-for sibling, inside table rows, inside an included component, inside slot content, inside a layout) x condition form (bare, negated) x a rotation through all Go value kinds realising each truth value; lazy part: every chain of 1-3 v-else-if (with/without v-else) x every position of the first truthy member that is followed by a v-else-if x later conditions that call a function returning an error / a counting function x {top, v-for, <template>, component}: the taken branch is rendered and the render does not fail; uniform part: every value of the truthy/falsy/undecided catalogue (all numeric widths, strings incl. \"0\" and \"false\", nil, missing, pointers, slices, maps, structs) x {v, o.v} read in v-if, v-else-if, v-show, :attr, :class object and their negations in v-if/v-else-if/v-show; non-trivial = every generated case (each has a condition decided by data); distinct by (shape, placement, form, values)"
 }
 
 func (p *c03) maxK(ctx core.Ctx) int { return ctx.Pick(2, 3) }
@@ -99,13 +100,17 @@ func (p *c03) rot(ctx core.Ctx) int { return ctx.Pick(8, len(c03Truthy)) }
 func (p *c03) Plan(ctx core.Ctx) int {
 	nChain := len(p.shapes(ctx)) * len(c03Placements) * 2 * p.rot(ctx)
 	nUni := (len(c03Falsy) + len(c03Truthy) + len(c03Undecided) + len(c03UniformOnly)) * 2
-	return nChain + nUni
+	return nChain + nUni + len(c03LazyCases())
 }
 
 func (p *c03) Gen(ctx core.Ctx, i int) any {
 	shapes := p.shapes(ctx)
 	rot := p.rot(ctx)
 	nChain := len(shapes) * len(c03Placements) * 2 * rot
+	if nUni := (len(c03Falsy) + len(c03Truthy) + len(c03Undecided) + len(c03UniformOnly)) * 2; i >= nChain+nUni {
+		l := c03LazyCases()[i-nChain-nUni]
+		return c03Case{Part: "lazy", Lazy: &l}
+	}
 	if i >= nChain {
 		j := i - nChain
 		all := append(append(append(append([]TV{}, c03Falsy...), c03Truthy...), c03Undecided...), c03UniformOnly...)
@@ -221,6 +226,10 @@ func (p *c03) Exec(ctx core.Ctx, cc any) core.Obs {
 		return p.execUniform(c)
 	}
 	var o core.Obs
+	if c.Part == "lazy" && c.Lazy != nil {
+		c03ExecLazy(c, &o)
+		return o
+	}
 	data := map[string]any{}
 	var tpl string
 	var files map[string]string
